@@ -54,13 +54,29 @@ RULE = (
     "-/+ delta for site darkness, umbra edge, limiting magnitude, galactic and Sun exclusion cones, Earth-limb cone, "
     "grazing sight lines of space sensors; (F) noise vector in {0,+-e_i} x diagonal/correlated covariance; (G) "
     "Measurement classes and helpers, Observation.fromMeasurement, predictObservation on a real EstimateAgent, "
-    "asyncExecuteTasking through the in-process ray for 1-2 tasked sensors; (H) sensor clock bias; (S) rows written by "
-    "a real Scenario. Every returned record is compared with the independent oracle's failing-constraint set. "
+    "asyncExecuteTasking through the in-process ray for 1-2 tasked sensors (10 deg cone and / or 20x10 deg rectangle, "
+    "both orders) x 8 pointing errors of the estimate (inside both fields of view / inside one / outside both / straight "
+    "at a background target) and a job without sensors, so that the job results cover every outcome mix {all observed, "
+    "all missed, observed by one sensor and missed by the other, primary missed + background observed, empty}; each of "
+    "these real TaskExecutionResult objects is then merged by the real TaskExecutionRegistration.processResults into a "
+    "real CentralizedTaskingEngine (alternately fresh / already holding the previous job of the step) and handed to the "
+    "database the way Scenario.saveDatabaseOutput does, and clause (ii) - every tasked sensor has exactly one record of "
+    "the primary target, observation xor miss, the miss reason failing in the oracle - is asserted on the engine's lists "
+    "and on the observations / missed_observations rows; (H) sensor clock bias; (S) real Scenarios stepped one step at "
+    "a time: 3 sensors x 3 targets under Munkres (wide / narrow field of view), 3-4 sensors of 60 / 0.5 deg field of "
+    "view all tasked on one poorly estimated (60 km) target under the greedy decision without / with a background "
+    "target / with database output every second step, and one narrow sensor whose background target flies where the "
+    "primary is believed to be; after every step each pair of the engine's decision matrix must have exactly one record "
+    "in engine.observations xor engine.missed_observations, at the end each tasks row with the decision set and each "
+    "decision-matrix pair of each step exactly one row in observations xor missed_observations (and no miss row without "
+    "a tasked attempt), each row judged by the oracle on the truth states. Every returned record is compared with the "
+    "independent oracle's failing-constraint set. "
     "non-trivial = some constraint margin of the primary or a background target is within 5 % of its scale (2 deg for "
     "mask / cone angles, 5 % of the FoV half width, 5 % of the range, 20 % of the received power, 0.1 mag, 2 solar radii "
     "from the umbra edge, 100 km sight-line clearance), or the slew is infeasible, or a background target is present, "
     "or the noise vector is non-zero; API-level cases (G, H, S) are non-trivial when they exercise a seam, the zenith, "
-    "a permuted label order, a rejected prediction or a multi-sensor job; distinct by construction (lattice points)."
+    "a permuted label order, a rejected prediction, a multi-sensor job, a merged job result or a tasked attempt of a "
+    "Scenario step; distinct by construction (lattice points)."
 )
 ASSUMPTIONS = [
     "inertial -> Earth-fixed rotation (eci2ecef / ecef2eci) is the library's (subject of C04); the horizon frame, "
@@ -1246,11 +1262,14 @@ def _run_G_predict(res, item):
     W2.sa._id = 20002  # noqa: SLF001  (second tasked sensor with its own id; same site)
     W = W1
     est_agent.time = ScenarioTime(W.t)
+    merge = _MergeHarness(W1, [W1.sa.simulation_id, W2.sa.simulation_id], [tg.simulation_id for tg in W.targets])
+    mixes = set()
     for az, el, daz, del_ in ((100.0 + ph, 45.0, 0.5, -0.3), (359.95, 30.0, 0.5, -0.3), (200.0, 80.0, 0.5, -0.3),
-                              (100.0 + ph, 45.0, 9.5, 0.5), (359.95, 30.0, -9.5, 0.5), (100.0 + ph, 45.0, 25.0, 0.0)):
+                              (100.0 + ph, 45.0, 9.5, 0.5), (359.95, 30.0, -9.5, 0.5), (100.0 + ph, 45.0, 25.0, 0.0),
+                              (100.0 + ph, 45.0, 40.0, 0.0), (359.95, 30.0, 40.0, 0.0)):
         # pointing error (daz, del): inside both fields of view / outside the 10 deg cone of the first sensor but inside
-        # the 20x10 deg rectangle of the second / outside both
-        for sensors in ((W1,), (W1, W2), (W2, W1)):
+        # the 20x10 deg rectangle of the second / outside both / outside both and straight at the second background target
+        for sensors in ((W1,), (W2,), (W1, W2), (W2, W1)):
             truth = W.place(az, el, rho0)
             est_state = W.place(az + daz, el + del_, rho0 * 1.001)
             bgs = [W.place(az + 3.0, el + 1.0, rho0 * 0.99), W.place(az + 40.0, el, rho0)]
@@ -1316,6 +1335,138 @@ def _run_G_predict(res, item):
                          observed={"boresight": list(map(float, info["boresight"])), "t": float(info["time_last_tasked"])},
                          expected={"boresight": geo["pointing_unit"], "t": Wk.t}, item=item)
             res.observe(len(result.observations), len(result.missed_observations))
+            # ---- the merge of this very result into a real tasking engine and into the database
+            oracle = {}
+            for Wk, (b_before, t_last) in zip(sensors, priors):
+                a, r = W.tprops[0]
+                oracle[Wk.sa.simulation_id] = og.evaluate(Wk.spec, Wk.frame, truth, est_state, b_before, Wk.t - t_last, a, r, Wk.sun)[0]
+            mixes.add(merge.check(res, item, ident, result, [Wk.sa.simulation_id for Wk in sensors], oracle))
+    # a job without a tasked sensor (empty result) leaves nothing behind
+    handles = {tg.simulation_id: ray.put(tg) for tg in W.targets}
+    empty = ray.get(asyncExecuteTasking.remote(TaskExecutionSubmission(ray.put(est_agent), handles, [])))
+    mixes.add(merge.check(res, item, {"fam": "G", "kind": kind, "host": host, "n_sensors": 0}, empty, [], {}))
+    # every outcome mix of one job has been through the merge (otherwise the enumeration above lost its point)
+    want = set(MERGE_MIXES)
+    res.case("merge/mixes_enumerated", {"fam": "G", "kind": kind, "host": host, "seen": sorted(mixes)}, want <= mixes,
+             nontrivial=True, signature="C02/merge/mixes_enumerated", observed=sorted(mixes), expected=sorted(want), item=item)
+
+
+# outcome mixes of one task-execution job (one job = one primary target, every sensor tasked on it, background targets)
+MERGE_MIXES = ("all_observed", "all_missed", "mixed_per_sensor", "primary_missed+background_observed", "empty")
+
+
+class _MergeHarness:
+    """A real CentralizedTaskingEngine (reward / decision objects from the factories, the in-memory database of the
+    current fake cluster) that receives real TaskExecutionResult objects through the real
+    TaskExecutionRegistration.processResults, followed by the same hand-over to the database as
+    Scenario.saveDatabaseOutput (getCurrentObservations + getCurrentMissedObservations -> bulkSave)."""
+
+    def __init__(self, W, sensor_ids, target_ids):
+        from resonaate.data.agent import AgentModel  # noqa: PLC0415
+        from resonaate.data.epoch import Epoch  # noqa: PLC0415
+        from resonaate.data.resonaate_database import ResonaateDatabase  # noqa: PLC0415
+        from resonaate.tasking.decisions import decisionFactory  # noqa: PLC0415
+        from resonaate.tasking.engine.centralized_engine import CentralizedTaskingEngine  # noqa: PLC0415
+        from resonaate.tasking.rewards import rewardsFactory  # noqa: PLC0415
+        from sqlalchemy.orm import Query  # noqa: PLC0415
+
+        ecfg = W.scfg.engines[0]
+        self.sensor_ids, self.target_ids = list(sensor_ids), list(target_ids)
+        self.primary = self.target_ids[0]
+        self.make = lambda: CentralizedTaskingEngine(1, list(sensor_ids), list(target_ids), rewardsFactory(ecfg.reward),
+                                                     decisionFactory(ecfg.decision), None, True)
+        self.engine = self.make()
+        self.db = self.engine._database  # noqa: SLF001
+        assert isinstance(self.db, ResonaateDatabase)
+        # rows the observation tables refer to (the Scenario writes them at build time / at every output step)
+        have = {a.unique_id for a in self.db.getData(Query(AgentModel))}
+        self.db.bulkSave([AgentModel(unique_id=i, name=f"A{i}") for i in self.sensor_ids + self.target_ids if i not in have])
+        jd = float(W.sa.julian_date_epoch)
+        if not any(abs(e.julian_date - jd) < 1e-9 for e in self.db.getData(Query(Epoch))):  # the real clock wrote its epochs
+            self.db.bulkSave([Epoch(julian_date=jd, timestampISO=W.utc.isoformat(timespec="microseconds"))])
+        self.jobs = 0
+
+    def check(self, res, item, ident, result, tasked, oracle):
+        """Clause (ii) after the merge: every tasked sensor has exactly one record for the primary target, an
+        observation xor a miss, and a miss states a constraint that the oracle finds failing.  Returns the mix label."""
+        from resonaate.parallel.tasking_execution import TaskExecutionRegistration  # noqa: PLC0415
+        from sqlalchemy.orm import Query  # noqa: PLC0415
+
+        prim = self.primary
+        r_obs = sorted((o.sensor_id, o.target_id) for o in result.observations)
+        r_miss = sorted((m.sensor_id, m.target_id, m.reason) for m in result.missed_observations)
+        hit = {sid for sid, tid in r_obs if tid == prim}
+        lost = {sid for sid, tid, _r in r_miss if tid == prim}
+        bg = [1 for sid, tid in r_obs if tid != prim]
+        if not tasked:
+            mix = "empty"
+        elif hit and lost:
+            mix = "mixed_per_sensor"
+        elif lost and bg:
+            mix = "primary_missed+background_observed"
+        elif lost:
+            mix = "all_missed"
+        else:
+            mix = "all_observed"
+        ident = dict(ident, mix=mix, job=self.jobs)
+        self.jobs += 1
+        # every second job goes into an engine that already holds the previous job's records of the same step (the engine
+        # merges one job per target into the same lists), the others into a fresh engine
+        if self.jobs % 2:
+            self.engine = self.make()
+        eng = self.engine
+        n0 = (len(eng.observations), len(eng.missed_observations))
+        raised = None
+        try:
+            TaskExecutionRegistration(eng, None, {}, []).processResults(result)
+        except Exception as exc:  # noqa: BLE001
+            raised = f"{type(exc).__name__}: {exc}"
+        if raised:
+            res.violate("merge/raised", ident, signature=f"C02/merge/raised/{raised.split(':')[0]}", observed=raised, item=item)
+            return mix
+        e_obs = sorted((o.sensor_id, o.target_id) for o in eng.observations[n0[0]:])
+        e_miss = sorted((m.sensor_id, m.target_id, m.reason) for m in eng.missed_observations[n0[1]:])
+        # (a) nothing of the job's result is lost or invented by the merge
+        res.case("merge/engine_lists", ident, e_obs == r_obs and e_miss == r_miss, nontrivial=True,
+                 signature=f"C02/merge/engine_lists/{mix}", observed={"obs": e_obs, "miss": e_miss},
+                 expected={"obs": r_obs, "miss": r_miss}, outcome=f"merge:{mix}", item=item)
+        # (b) clause (ii) on the engine's lists
+        for sid in tasked:
+            no = sum(1 for s_, t_ in e_obs if s_ == sid and t_ == prim)
+            reasons = [r_ for s_, t_, r_ in e_miss if s_ == sid and t_ == prim]
+            st = oracle[sid]
+            true_reason = all(st.get(og.CONSTRAINT_OF_REASON.get(r_)) in ("fail", "either") for r_ in reasons)
+            res.case("merge/engine_one_record", dict(ident, sensor=sid), no + len(reasons) == 1 and true_reason, nontrivial=True,
+                     signature=f"C02/merge/engine_one_record/obs={no}/miss={len(reasons)}" + ("" if true_reason else "/untrue_reason"),
+                     observed={"obs": no, "miss": reasons}, expected=_failing(st), item=item)
+        # (c) the sensor changes of every tasked sensor are recorded
+        info = {d["sensor_id"]: d for d in result.sensor_info_list}
+        ok_ch = sorted(info) == sorted(tasked) and all(
+            sid in eng.sensor_changes and fw.maxabs(eng.sensor_changes[sid]["boresight"], info[sid]["boresight"]) == 0.0
+            and float(eng.sensor_changes[sid]["time_last_tasked"]) == float(info[sid]["time_last_tasked"]) for sid in tasked)
+        res.case("merge/sensor_changes", ident, ok_ch, nontrivial=bool(tasked), signature="C02/merge/sensor_changes",
+                 observed=sorted(eng.sensor_changes), expected=sorted(tasked), item=item)
+        # (d) clause (ii) on the rows: what the engine hands over for saving, saved the way the Scenario saves it
+        out = list(eng.getCurrentObservations()) + list(eng.getCurrentMissedObservations())
+        self.db.bulkSave(out)
+        o_rows = self.db.getData(Query(Observation))
+        m_rows = self.db.getData(Query(MissedObservation))
+        d_obs = sorted((o.sensor_id, o.target_id) for o in o_rows)
+        d_miss = sorted((m.sensor_id, m.target_id, m.reason) for m in m_rows)
+        res.case("merge/rows", ident, d_obs == r_obs and d_miss == r_miss, nontrivial=True, signature=f"C02/merge/rows/{mix}",
+                 observed={"obs": d_obs, "miss": d_miss}, expected={"obs": r_obs, "miss": r_miss}, item=item)
+        for sid in tasked:
+            no = sum(1 for s_, t_ in d_obs if s_ == sid and t_ == prim)
+            reasons = [r_ for s_, t_, r_ in d_miss if s_ == sid and t_ == prim]
+            st = oracle[sid]
+            true_reason = all(st.get(og.CONSTRAINT_OF_REASON.get(r_)) in ("fail", "either") for r_ in reasons)
+            res.case("merge/rows_one_record", dict(ident, sensor=sid), no + len(reasons) == 1 and true_reason, nontrivial=True,
+                     signature=f"C02/merge/rows_one_record/obs={no}/miss={len(reasons)}" + ("" if true_reason else "/untrue_reason"),
+                     observed={"obs": no, "miss": reasons}, expected=_failing(st), item=item)
+        self.db.deleteData(Query(Observation))
+        self.db.deleteData(Query(MissedObservation))
+        res.observe(mix, len(d_obs), len(d_miss))
+        return mix
 
 
 def _run_G_from_measurement(res, item):
@@ -1447,10 +1598,14 @@ def _spec_from_cfg(sensor_cfg, space):
 
 def _run_S(res, item):
     """Rows of the observations / missed_observations tables written by a real Scenario (tasking engine, fake-ray jobs,
-    database) against the oracle evaluated on the truth ephemeris rows of the same epoch."""
+    database) against the oracle evaluated on the truth ephemeris rows of the same epoch; the engines' own lists after
+    every step and the rows at the end against the tasked attempts (decision matrices, tasks rows): exactly one record
+    per tasked attempt, also when one job returns observations and misses together."""
     from resonaate.data.ephemeris import TruthEphemeris  # noqa: PLC0415
     from resonaate.physics.time.stardate import datetimeToJulianDate  # noqa: PLC0415
     from sqlalchemy.orm import Query  # noqa: PLC0415
+
+    from resonaate.data.task import Task  # noqa: PLC0415
 
     _f, variant, tier, seed = item
     start = EPOCHS["night"]
@@ -1462,19 +1617,89 @@ def _run_S(res, item):
         tc = scen.target_eci(10001 + j, *scen.overhead_orbit(when, *sub))
         tc["platform"].update(visual_cross_section=10.0, reflectivity=0.21, mass=100.0)
         tg.append(tc)
-    wide = {"fov_shape": "conic", "cone_angle": 60.0 if variant == "wide" else 5.0}
-    ss = [scen.ground_sensor(20001, 45.0, -120.0, kind="adv_radar", fov=wide),
-          scen.ground_sensor(20002, 44.0, -119.0, kind="optical", fov=wide),
-          scen.ground_sensor(20003, 46.0, -121.5, kind="radar", fov=wide, azimuth_range=[300.0, 200.0])]
     n_steps = 3 if tier == "quick" else 6
-    cfg = scen.config(start, n_steps + 1, [scen.engine(1, tg, ss)], physics=60, observation={"background": True}, seed=3)
-    if variant == "narrow":
-        cfg["noise"]["init_position_std_km"] = 40.0  # poor initial estimates: the narrow field of view misses the truth
+    cone = lambda deg: {"fov_shape": "conic", "cone_angle": deg}  # noqa: E731
+    # sensor of the second engine (whose targets are background targets for the first): on the far side of the Earth,
+    # never visible, never tasked (a second precise radar track of a 60 km prior in the same step makes the UKF
+    # covariance indefinite: not C02's subject)
+    far = scen.ground_sensor(20005, -45.0, 60.0, kind="adv_radar", fov=cone(60.0))
+    # a target 40 km above the first one on the same ground track (2-3 deg from it as seen from the sites)
+    near = scen.target_eci(10004, *scen.overhead_orbit(when, subs[0][0], subs[0][1], subs[0][2] + 40.0, subs[0][3]))
+    near["platform"].update(visual_cross_section=10.0, reflectivity=0.21, mass=100.0)
+    if variant in ("wide", "narrow"):
+        # one sensor per target (Munkres): every job has a single tasked sensor
+        wide = cone(60.0 if variant == "wide" else 5.0)
+        ss = [scen.ground_sensor(20001, 45.0, -120.0, kind="adv_radar", fov=wide),
+              scen.ground_sensor(20002, 44.0, -119.0, kind="optical", fov=wide),
+              scen.ground_sensor(20003, 46.0, -121.5, kind="radar", fov=wide, azimuth_range=[300.0, 200.0])]
+        engines = [scen.engine(1, tg, ss)]
+        cfg = scen.config(start, n_steps + 1, engines, physics=60, observation={"background": True}, seed=3)
+        if variant == "narrow":
+            cfg["noise"]["init_position_std_km"] = 40.0  # poor initial estimates: the narrow field of view misses the truth
+    elif variant in ("shared", "shared_bg", "shared_out2"):
+        # every sensor is tasked on the single target of the engine (greedy decision): ONE job per step carries the
+        # attempts of all of them; the initial estimate is poor (60 km at 900 km range = 4 deg), so the 0.5 deg fields
+        # of view miss the truth while the 60 deg one holds it -> jobs with observations AND misses
+        ss = [scen.ground_sensor(20001, 45.0, -120.0, kind="adv_radar", fov=cone(60.0)),
+              scen.ground_sensor(20002, 44.0, -119.0, kind="adv_radar", fov=cone(0.5)),
+              scen.ground_sensor(20003, 46.0, -121.5, kind="radar", fov=cone(0.5)),
+              scen.ground_sensor(20004, 44.5, -121.0, kind="optical", fov=cone(0.5))]
+        engines = [scen.engine(1, tg[:1], ss, decision="MyopicNaiveGreedyDecision"),
+                   scen.engine(2, [near], [far])]
+        # shared_out2: database output every second step only - the records of the steps in between wait in the engine
+        if variant == "shared_out2":
+            n_steps += n_steps % 2
+        cfg = scen.config(start, n_steps + 2, engines, physics=60, output=120 if variant == "shared_out2" else None,
+                          observation={"background": variant != "shared"}, seed=3)
+        cfg["noise"]["init_position_std_km"] = 60.0
+    elif variant == "companion":
+        # a single narrow sensor with background observations on, tasked on a poorly estimated primary; a second target
+        # (of another engine) flies exactly where the primary is believed to be -> primary missed, background observed,
+        # both in the result of one job
+        ss = [scen.ground_sensor(20001, 45.0, -120.0, kind="adv_radar", fov=cone(0.5))]
+        engines = [scen.engine(1, tg[:1], ss, decision="MyopicNaiveGreedyDecision"),
+                   scen.engine(2, tg[1:2], [far])]
+        cfg = scen.config(start, n_steps + 1, engines, physics=60, observation={"background": True}, seed=3)
+        cfg["noise"]["init_position_std_km"] = 60.0
+    else:
+        raise ValueError(variant)
+    ss = [c for e in engines for c in e["sensors"]]
     sc = scen.build(cfg)
-    sc.propagateTo(datetimeToJulianDate(start + timedelta(seconds=60 * n_steps)))
+    if variant == "companion":
+        sc.target_agents[10002].eci_state = np.array(sc.estimate_agents[10001].eci_state, dtype=float)
+    # one step at a time: after every step the engines' own lists are compared with their decision matrices
+    # clause (ii) on the engine: every tasked (sensor, target) pair has exactly one record, observation xor miss
+    eng_mixed = 0
+    live, attempts = {}, []
+    for k in range(1, n_steps + 1):
+        sc.propagateTo(datetimeToJulianDate(start + timedelta(seconds=60 * k)))
+        for aid, agent in list(sc.target_agents.items()) + list(sc.sensor_agents.items()):
+            live[(aid, 60 * k)] = np.array(agent.eci_state, dtype=float)
+        for eid, eng in sorted(sc._tasking_engines.items()):  # noqa: SLF001
+            e_obs = [(o.sensor_id, o.target_id) for o in eng.observations]
+            e_miss = [(m.sensor_id, m.target_id) for m in eng.missed_observations]
+            for tid, ti in eng.target_indices.items():
+                tasked_here = [sid for sid, si in eng.sensor_indices.items() if eng.decision_matrix[ti, si]]
+                hits = [sid for sid in tasked_here if (sid, tid) in e_obs]
+                if tasked_here and len(hits) < len(tasked_here) and any(o[0] in tasked_here for o in e_obs):
+                    eng_mixed += 1
+                for sid in tasked_here:
+                    attempts.append((sid, tid, 60 * k))
+                    no, nm = e_obs.count((sid, tid)), e_miss.count((sid, tid))
+                    res.case("engine/one_record", {"fam": "S", "variant": variant, "engine": eid, "step": k, "sensor": sid,
+                                                   "target": tid}, no + nm == 1, nontrivial=True,
+                             signature=f"C02/engine/one_record/obs={no}/miss={nm}", observed=[no, nm], expected="one record",
+                             outcome=f"engine:{'obs' if no else 'miss' if nm else 'none'}", item=item)
+            # no miss record for an attempt that was not tasked
+            stray = [m for m in e_miss if not (m[1] in eng.target_indices and m[0] in eng.sensor_indices
+                                               and eng.decision_matrix[eng.target_indices[m[1]], eng.sensor_indices[m[0]]])]
+            res.case("engine/no_stray_miss", {"fam": "S", "variant": variant, "engine": eid, "step": k}, not stray,
+                     signature="C02/engine/stray_miss", observed=stray, item=item)
     truth = {}
     for r in sc.database.getData(Query(TruthEphemeris)):
         truth[(r.agent_id, round((r.julian_date - float(sc.clock.julian_date_start)) * 86400.0))] = np.array(r.eci, dtype=float)
+    for key, val in live.items():
+        truth.setdefault(key, val)  # steps without database output: the agents' own states at that step
     specs = {c["id"]: _spec_from_cfg(c, False) for c in ss}
     covs = {c["id"]: np.array(c["sensor"]["covariance"], dtype=float) for c in ss}
     jd0 = float(sc.clock.julian_date_start)
@@ -1544,6 +1769,42 @@ def _run_S(res, item):
     for key, (no, nm) in sorted(seen.items()):
         res.case("db/xor", {"fam": "S", "variant": variant, "key": list(key)}, no + nm == 1, nontrivial=True,
                  signature=f"C02/db/xor/obs={no}/miss={nm}", observed=[no, nm], item=item)
+    # every tasked attempt (tasks row with decision set) has exactly one row for its primary target, observation xor miss
+    task_rows = [t for t in sc.database.getData(Query(Task)) if t.decision]
+    mixed_jobs = 0
+    per_job = {}
+    for t in task_rows:
+        key = (t.sensor_id, t.target_id, round((t.julian_date - jd0) * 86400.0))
+        no, nm = seen.get(key, [0, 0])
+        res.case("db/tasked_attempt_one_record", {"fam": "S", "variant": variant, "key": list(key)}, no + nm == 1, nontrivial=True,
+                 signature=f"C02/db/tasked_attempt/obs={no}/miss={nm}", observed=[no, nm], expected="one row",
+                 outcome=f"tasked:{'obs' if no else 'miss' if nm else 'none'}", item=item)
+        per_job.setdefault((t.target_id, key[2]), []).append((t.sensor_id, no))
+    for (tid, k), att in per_job.items():
+        tasked_ids = {sid for sid, _n in att}
+        missed_primary = any(n == 0 for _s, n in att)
+        any_obs = any(o.sensor_id in tasked_ids and round((o.julian_date - jd0) * 86400.0) == k for o in obs_rows)
+        mixed_jobs += bool(missed_primary and any_obs)
+    # the same against the engines' decision matrices of every step (the tasks table has rows of the output steps only)
+    for key in attempts:
+        no, nm = seen.get(key, [0, 0])
+        res.case("db/engine_attempt_one_record", {"fam": "S", "variant": variant, "key": list(key)}, no + nm == 1, nontrivial=True,
+                 signature=f"C02/db/engine_attempt/obs={no}/miss={nm}", observed=[no, nm], expected="one row", item=item)
+    res.case("db/tasks_rows_are_engine_attempts", {"fam": "S", "variant": variant},
+             {(t.sensor_id, t.target_id, round((t.julian_date - jd0) * 86400.0)) for t in task_rows} <= set(attempts),
+             signature="C02/db/tasks_rows_not_engine_attempts", item=item)
+    # ... and every miss row belongs to a tasked attempt
+    tasked_keys = set(attempts)
+    for m in miss_rows:
+        key = (m.sensor_id, m.target_id, round((m.julian_date - jd0) * 86400.0))
+        res.case("db/miss_row_is_tasked", {"fam": "S", "variant": variant, "key": list(key)}, key in tasked_keys,
+                 signature="C02/db/miss_row_not_tasked", item=item)
+    if variant in ("shared", "shared_bg", "shared_out2", "companion"):
+        # the variant exists for the jobs with a mixed outcome: it must contain them (steps of the real engine and rows)
+        res.case("db/mixed_jobs_present", {"fam": "S", "variant": variant}, mixed_jobs >= 1 and eng_mixed >= 1, nontrivial=True,
+                 signature="C02/db/mixed_jobs_present", observed={"rows": mixed_jobs, "engine_steps": eng_mixed}, item=item)
+    res.extra["db_tasked_attempts"] = res.extra.get("db_tasked_attempts", 0) + len(task_rows)
+    res.extra["db_mixed_outcome_jobs"] = res.extra.get("db_mixed_outcome_jobs", 0) + mixed_jobs
     res.extra["db_observation_rows"] = res.extra.get("db_observation_rows", 0) + len(obs_rows)
     res.extra["db_missed_rows"] = res.extra.get("db_missed_rows", 0) + len(miss_rows)
 
@@ -1590,7 +1851,7 @@ def items(tier, seed):
     out.append(("Gf", tier, seed))
     for kind in KINDS:
         out.append(("H", kind, tier, seed))
-    for variant in ("wide", "narrow"):
+    for variant in ("wide", "narrow", "shared", "shared_bg", "shared_out2", "companion"):
         out.append(("S", variant, tier, seed))
     return out
 
@@ -1617,6 +1878,22 @@ def bounds(tier, seed):
         "radar_range_fractions": [0.5, 0.999, 1.001, 2.0] + ([0.9, 0.99999, 1.00001, 1.1] if tier == "thorough" else []),
         "noise_vectors": "0, +e_i, -e_i for every measurement component; diagonal and correlated covariance",
         "time_biases_s": [0.0, 5.0, -5.0, 30.0, -59.0, 60.0, 61.0, -75.0],
+        "execute_jobs": {"tasked_sensor_sets": ["cone10", "rect20x10", "cone10+rect20x10", "rect20x10+cone10", "none"],
+                         "estimate_pointing_error_deg": [[0.5, -0.3], [9.5, 0.5], [-9.5, 0.5], [25.0, 0.0], [40.0, 0.0]],
+                         "background_targets_offset_deg": [[3.0, 1.0], [40.0, 0.0]],
+                         "result_outcome_mixes_required_per_item": list(MERGE_MIXES),
+                         "merge": "TaskExecutionRegistration.processResults -> CentralizedTaskingEngine (fresh / holding "
+                                  "the previous job) -> getCurrentObservations + getCurrentMissedObservations -> bulkSave"},
+        "scenario_variants": {
+            "wide": "Munkres, 3 sensors x 3 targets, 60 deg cones, background on",
+            "narrow": "Munkres, 3 sensors x 3 targets, 5 deg cones, 40 km initial error, background on",
+            "shared": "greedy, 4 sensors (60 / 0.5 / 0.5 / 0.5 deg cones) on 1 target, 60 km initial error, background off",
+            "shared_bg": "as shared, background on, a second target 40 km above the first",
+            "shared_out2": "as shared_bg, database output every second step",
+            "companion": "greedy, one 0.5 deg sensor, background on, 60 km initial error, a second target placed on the "
+                         "primary's initial estimate",
+            "steps": 3 if tier == "quick" else 6,
+        },
         "work_items_per_family": per_family,
     }
 
